@@ -616,13 +616,17 @@ pub fn run(run: &mut Run, args: &Args) {
                     }
                     Outcome::OtherErr(e) => {
                         run.count("outcome_other_error");
-                        (false, format!("error whose root cause is not ResourcesExhausted: {e}"), Some("other".to_string()))
+                        // reported by the oracle below (with its class); the Lean judge only sees rows / resources
+                        (false, format!("error whose root cause is not ResourcesExhausted: {e}"), None)
                     }
                 };
                 // the class of the recorded finding (notes/C18.md) gets its own signature prefix
                 let class = if !ok1 && detail1.contains("The used disk space during the spilling process has exceeded the allowable limit") {
                     run.count("disk_limit_surfaced_as_arrow_io_error");
                     "exact-or-resources[disk-limit-as-io-error]"
+                } else if !ok1 && detail1.contains("hash aggregate ran out of memory with no aggregated groups") {
+                    run.count("agg_oom_without_groups_surfaced_as_internal_error");
+                    "exact-or-resources[agg-oom-no-groups-internal]"
                 } else {
                     "exact-or-resources"
                 };
